@@ -2,3 +2,4 @@ pub mod rast;
 pub mod pix;
 pub mod step;
 pub mod wind;
+pub mod curve;
